@@ -62,6 +62,9 @@ type world struct {
 	debug  bool
 	serial int
 	labels map[string]bool
+	// the package's default level as the statement defines it: what it was when the case began,
+	// changed by the package-level SetLevel only (never read back from the implementation)
+	pkgLevel slog.Level
 }
 
 func (w *world) history() string {
@@ -131,6 +134,9 @@ func (w *world) noteLevel(l slog.Level) {
 // ---------- invariants checked after every step ----------
 
 func (w *world) checkGetters() {
+	if got := slog.GetLevel(); got != w.pkgLevel {
+		w.discrep("C10/isolation", "the package default level (GetLevel) is %v; it was %v when the case began / after the last package-level SetLevel, and only that function may change it", got, w.pkgLevel)
+	}
 	for _, n := range w.nodes {
 		lg := n.lg
 		if lg.Level() != n.level {
@@ -684,7 +690,7 @@ func (w *world) step() {
 		w.hist = append(w.hist, fmt.Sprintf("slog.New(%q,%v)", name, opts))
 		lg := slog.New(args...)
 		m := w.adopt(lg, nil, name, nil)
-		m.level, m.format = slog.GetLevel(), fColor // colored, at the package's current default level
+		m.level, m.format = w.pkgLevel, fColor // colored, at the package's current default level
 		for _, s := range opts {
 			w.applyModel(m, s)
 		}
@@ -802,6 +808,7 @@ func (w *world) step() {
 		w.hist = append(w.hist, fmt.Sprintf("slog.SetLevel(%v)", l))
 		slog.SetLevel(l)
 		w.noteLevel(l)
+		w.pkgLevel = l
 		w.nodes[0].level = l // node 0 is the default logger
 		w.labels["pkg-setlevel"] = true
 	default:
@@ -820,15 +827,11 @@ func TestHierarchy(t *testing.T) {
 		if vlib.ProductionMode() && slog.GetLevel() != slog.WarnLevel {
 			t.Fatalf("C10: in a production process the package default level must be Warn before any SetLevel, got %v", slog.GetLevel())
 		}
+		w.pkgLevel = slog.GetLevel()
 		def := slog.New("dflt")
 		slog.SetDefault(def)
 		d := w.adopt(def, nil, def.Name(), nil)
-		d.level, d.format = def.Level(), fColor
-		if def.JSONMode() {
-			d.format = fJSON
-		} else if !def.ColorMode() {
-			d.format = fLogfmt
-		}
+		d.level, d.format = w.pkgLevel, fColor // what the statement says about a logger made by the package-level New
 		w.debug = false
 		steps := rapid.IntRange(3, 40).Draw(t, "steps")
 		for i := 0; i < steps; i++ {
